@@ -47,6 +47,13 @@ func TraverseAST(node ast.Node, env *Pass1) ast.Node {
 			return nil // またはエラーを適切に処理します
 		}
 
+		// 評価済みの値には、この時点で定義済みの EQU 名は残っていない。それでも自分自身の名前が残っている場合
+		// (A EQU A、または A EQU B / B EQU A の 2 つ目) は循環定義で、使われた時点で Eval が無限に再帰する。
+		if mentionsIdent(evalValueExp, n.Id.Value) {
+			log.Printf("error: EQU '%s' is defined in terms of itself (%s); definition ignored", n.Id.Value, evalValueExp.TokenLiteral())
+			return nil
+		}
+
 		// Pass1 のメソッドを使用して環境にマクロを定義します。
 		env.DefineMacro(n.Id.Value, evalValueExp)
 		log.Printf("debug: Defined macro '%s' = %s", n.Id.Value, evalValueExp.TokenLiteral())
@@ -258,6 +265,55 @@ func (p *Pass1) LookupMacro(name string) (ast.Exp, bool) {
 	exp, ok := p.MacroMap[name]
 	// Eval ロジックでは、古い EquMap へのフォールバックは不要です
 	return exp, ok
+}
+
+// mentionsIdent は、式の中に識別子 name が現れるかどうかを返します (EQU の循環定義の検出用)。
+func mentionsIdent(exp ast.Exp, name string) bool {
+	switch e := exp.(type) {
+	case *ast.NumberExp:
+		return false
+	case *ast.ImmExp:
+		if e == nil {
+			return false
+		}
+		id, ok := e.Factor.(*ast.IdentFactor)
+		return ok && id.Value == name
+	case *ast.MultExp:
+		if e == nil {
+			return false
+		}
+		if e.HeadExp != nil && mentionsIdent(e.HeadExp, name) {
+			return true
+		}
+		for _, t := range e.TailExps {
+			if t != nil && mentionsIdent(t, name) {
+				return true
+			}
+		}
+	case *ast.AddExp:
+		if e == nil {
+			return false
+		}
+		if e.HeadExp != nil && mentionsIdent(e.HeadExp, name) {
+			return true
+		}
+		for _, t := range e.TailExps {
+			if t != nil && mentionsIdent(t, name) {
+				return true
+			}
+		}
+	case *ast.MemoryAddrExp:
+		if e == nil {
+			return false
+		}
+		return (e.Left != nil && mentionsIdent(e.Left, name)) || (e.Right != nil && mentionsIdent(e.Right, name))
+	case *ast.SegmentExp:
+		if e == nil {
+			return false
+		}
+		return (e.Left != nil && mentionsIdent(e.Left, name)) || (e.Right != nil && mentionsIdent(e.Right, name))
+	}
+	return false
 }
 
 // GetLOC は Pass1 の ast.Env インターフェースを実装します。
